@@ -379,6 +379,9 @@ SCHEDULES = [
     # stop, then at once a new go, while the stopped search thread has not even looked at the flag yet: the stop must still hold
     ("stop-then-go-before-the-thread-has-started", {"search_entry": 300}, [(0, "go infinite"), (20, "stop"), (0, "go depth 1")], 2),
     ("stop-then-go-with-slow-first-iteration", {"first_iteration_done": 250}, [(0, "go infinite"), (40, "stop"), (0, "go depth 1")], 2),
+    # a stop that finds nothing to stop (before the first go; after a finished search was collected) must not be remembered
+    ("idle-stop-before-the-first-go", {}, [(0, "stop"), (20, "go infinite"), (100, "stop")], 1),
+    ("idle-stops-between-searches", {}, [(0, "go depth 1"), (300, "isready"), (50, "stop"), (0, "stop"), (20, "go infinite"), (100, "stop"), (150, "go depth 1")], 3),
     # lines the parser rejects (no effect, no command_done label) must not swallow what follows them
     ("rejected-line-during-search", {}, [(0, "go infinite"), (50, "debug on"), (30, "stop")], 1),
     ("rejected-lines-then-go", {}, [(0, "ponderhit"), (20, "go depth 1"), (300, "xyzzy 1 2"), (0, "go wtime"), (20, "go depth 1")], 2),
@@ -806,8 +809,14 @@ def c15_extra(tier, seed, ctx):
     # words other engines understand at the console (none is a UCI command of this engine today): whatever the engine does with
     # them — reject them, or one day implement them — it must stay alive and responsive, also with a warm cache whose best line repeats
     CONSOLE = ["d", "eval", "perft 2", "go perft 2", "bench", "debug on", "debug off", "register later", "ponderhit", "flip", "help", "display", "print",
-               "fen", "moves", "undo", "new", "xboard", "protover 2", "compiler", "export_net", "hashfull", "tt", "pv", "hash", "board", "show", "info", "?"]
-    for fen, depth in (("6k1/6p1/8/7Q/8/2q4P/1r4PK/8 w - - 0 1", 4), ("8/8/8/8/8/5k2/4q3/7K b - - 0 1", 5), (SEEDS[0], 3)):
+               "fen", "moves", "undo", "new", "xboard", "protover 2", "compiler", "export_net", "hashfull", "tt", "pv", "hash", "board", "show", "info", "?",
+               # … and the options the engine advertises, set AFTER a search has filled the cache (an option that is really applied
+               # — resizing or clearing the table, say — must not wedge the loop), with values at and beyond the advertised ranges
+               "setoption name Hash value 1", "setoption name Hash value 1024", "setoption name Hash value 0", "setoption name Hash value 99999999",
+               "setoption name Threads value 1", "setoption name Threads value 0", "setoption name Move Overhead value 0", "setoption name Move Overhead value 5000",
+               "ucinewgame", "setoption name Hash value 1"]
+    for fen, depth in (("6k1/6p1/8/7Q/8/2q4P/1r4PK/8 w - - 0 1", 4), ("8/8/8/8/8/5k2/4q3/7K b - - 0 1", 5),
+                       ("r1bqk1nr/pppp1ppp/2n5/2b1p3/2B1P3/5N2/PPPP1PPP/RNBQK2R w KQkq - 4 4", 6)):
         def console(scale, fen=fen, depth=depth):
             v = []
             eng = Engine(E)
